@@ -362,6 +362,40 @@ class Discharger:
             if why is None:
                 why = self._get_guard(f, n, bs, idx)
             return why
+        # a record indexed by the variable of a loop over a constant tuple of keys (`for k in ("input", "output"): d[k]`):
+        # the lookup succeeds if it does for each of the constants
+        if isinstance(idx, ast.Name):
+            from .common import UNKNOWN_VALUE, possible_values
+
+            vals = possible_values(self.ctx, f, idx, n)
+            if vals and UNKNOWN_VALUE not in vals and all(isinstance(v_, str) for v_ in vals):
+                whys = [self.key_subscript(f, n, v_) or self._get_guard(f, n, bs, ast.Constant(value=v_)) for v_ in sorted(vals)]
+                if all(whys):
+                    return f"`{idx.id}` is one of {sorted(vals)}; each is " + whys[0]
+        # a constant table indexed by a variable that a dominating guard confines to the table's keys:
+        # `if v not in ["in", "out"]: raise` ... `KEYS[v]` with KEYS = {"in": ..., "out": ...}
+        if isinstance(idx, ast.Name) and isinstance(base, ast.Name):
+            defs_b = self._defs(f, base.id)
+            if len(defs_b) == 1 and isinstance(defs_b[0], ast.Dict) and all(isinstance(k, ast.Constant) for k in defs_b[0].keys) and base.id not in f.params:
+                keys_ = {k.value for k in defs_b[0].keys}
+                cfg_ = self.cfg(f)
+                node_ = cfg_.node_containing(n)
+                if node_ is not None:
+                    for c_ in cfg_.live:
+                        if c_.kind == "cond" and isinstance(c_.ast, ast.Compare) and len(c_.ast.ops) == 1 and isinstance(c_.ast.ops[0], (ast.NotIn, ast.In)) and src(c_.ast.left) == idx.id:
+                            coll = c_.ast.comparators[0]
+                            adm = keys_ if src(coll) == base.id else None
+                            if adm is None:
+                                v_ = self.ctx.folder.fold(coll, f.module)
+                                if isinstance(v_, (list, tuple, set, frozenset, dict)):
+                                    adm = set(v_)
+                            if adm is None or not adm <= keys_:
+                                continue
+                            bad_lab = "T" if isinstance(c_.ast.ops[0], ast.NotIn) else "F"
+                            # the lookup is not reachable through the branch on which the variable is outside the set
+                            if node_ not in reachable_without_edges(cfg_, cfg_.entry, {(c_.id, "F" if bad_lab == "T" else "T")}) and cfg_.dominates(c_, node_):
+                                if not any(isinstance(x, ast.Name) and x.id == idx.id and isinstance(x.ctx, ast.Store) and getattr(x, "lineno", 0) > getattr(c_.ast, "lineno", 0) and getattr(x, "lineno", 0) < getattr(n, "lineno", 0) for x in own_nodes(f.node)):
+                                    return f"`{idx.id}` is confined to {sorted(adm)} by a dominating guard, all of them keys of the constant table `{base.id}`"
         if ival is not None:
             # len guard
             ln = self._len_guard(f, n, bs)
